@@ -22,6 +22,12 @@ real run : kind "script"   the real AsyncTLSStreamTransport (made by its own wra
                            it has read everything; COARSE in-memory transports that hand over everything they have up to the
                            caller's buffer size (a read can fill the 256 KiB buffer exactly, then silence); peer = stdlib
                            SSLObject or a second library transport (vlib/c08_bulk.py, oracle only);
+           kind "cancel"   histories WITH CANCELLATIONS (vlib/c08_cancel.py, oracle only): tasks of the library side are cancelled
+                           (task.cancel / backend.timeout / move_on_after, at a chosen loop turn) while they wait for the SEND
+                           lock behind a sender parked under back-pressure (a second send_all; a recv that must flush first),
+                           for the RECEIVE lock, or inside the wrapped recv_into; then the history goes on: traffic both ways,
+                           TLS 1.3 post-handshake authentication (the engine produces output WHILE READING that must be
+                           flushed before the peer can answer), aclose(); a cancelled lock waiter must leave nothing behind;
            "lend": true    (duplex, session, bulk) the in-memory wrapped transports keep the buffer given to recv_into across a
                            suspension and fill it from a loop callback one iteration before the reader resumes (what the
                            asyncio adapter does), so that two deliveries land before either reader has looked;
@@ -34,7 +40,11 @@ oracle   : plaintext delivered == plaintext written, in order, both directions (
            real sessions); nothing but bytes that came out of the outgoing BIO reaches the wrapped transport (and no 8-byte
            window of plaintext occurs in them); no overlapping send_all / recv_into on the wrapped transport; no deadlock;
            no exception other than the documented ones; when a write call has returned and no other write call of that
-           side is in progress the outgoing BIO and the backlog are empty (bulk, duplex, session).
+           side is in progress the outgoing BIO and the backlog are empty (bulk, duplex, session; cancel: only while no
+           write call has been cancelled and no post-handshake exchange has put bytes of its own into the BIO);
+           cancel: after any cancellation of a lock waiter every later transfer, the post-handshake authentication and
+           aclose()'s closing exchange complete (exact hang detection on the virtual loop), the peer reads the send_all
+           calls in call order (a cancelled call entirely or not at all) and a clean end of stream.
 """
 from __future__ import annotations
 
@@ -95,7 +105,11 @@ TRUSTED_BASE = [
 ]
 ASSUMPTIONS = [
     "ssl.write never returns 0 for a non-empty view (the Python loop would spin; the model reports `spin`)",
-    "no cancellation and no aclose() during the modelled operations (covered by C10 / C09 / C14)",
+    "no cancellation and no aclose() in the MODEL (C10 / C09 / C14); cancel kind (oracle only): only tasks parked on one of the "
+    "two locks, in the wrapped recv_into or not yet started are cancelled (a send_all cancelled inside the wrapped send_all "
+    "breaks the stream by contract); a cancelled send_all may be delivered entirely or not at all; at most one task of an "
+    "endpoint is in the WANT_READ branch when data arrives unless the readers are restarted afterwards (docs/C08.md, "
+    "observations 2 and 3: two known residuals of the unchanged library are kept out of the generated region)",
     "TlsLaws for the transparency theorem; one reader task per direction for the end-to-end statement",
     "blocking variant: real threads, judged on inputs/outputs only; a harness-side timeout is an infrastructure error",
     "bulk kind: oracle only (no model run); the exact-size cases rely on the per-record overhead of the running OpenSSL, "
@@ -120,6 +134,13 @@ RULE = (
     "peer (stdlib SSLObject / second library transport) x coarse pipes (unbounded / 64 KiB / exactly 256 KiB / 1 MiB; reads "
     "up to the caller's buffer or capped at 256 KiB, 256 KiB - 1, 100000; buffer copied / lent) x readers-first / "
     "writers-first x recv / recv_into sizes x TLS version x role; "
+    "cancel case = 1 … 3 episodes (send-lock waiters behind a sender under back-pressure: second send_all / recv that must "
+    "flush / the send_all carrying a post-handshake-auth request; receive-lock waiters behind a parked reader; a reader "
+    "cancelled in the middle of a fragmented record; full duplex) x victims cancelled by task.cancel / backend.timeout / "
+    "move_on_after x 0 … 5 loop turns after they started or after the back-pressure is released, or once everything is "
+    "parked x post-handshake authentication (TLS 1.3, either role, with or without application data, 0 / 2 session "
+    "tickets) before, between or after the cancellations x further traffic both ways x aclose() x pipe capacity x "
+    "fragment size x peer (stdlib SSLObject / second library transport) x TLS version x role; "
     "non-trivial = a retried write after WANT_*, a partial write, a task parked on "
     "a transport lock, a read that had to wait, a multi-step handshake, or a real session; distinct by case digest"
 )
@@ -154,6 +175,9 @@ def run_real(case: dict) -> list[str]:
     if kind == "bulk":
         from vlib import c08_bulk as K
         return K.run_bulk(case)
+    if kind == "cancel":
+        from vlib import c08_cancel as X
+        return X.run_cancel(case)
     return [f"harness-exc unknown kind {kind}"]
 
 
@@ -167,7 +191,7 @@ def real_for_diff(case: dict, real: list[str]) -> list[str]:
 
 
 def model_input(case: dict, real: list[str]):
-    if case.get("kind", "script") in ("multi", "bulk"):
+    if case.get("kind", "script") in ("multi", "bulk", "cancel"):
         return None                             # oracle only
     if case.get("kind", "script") == "blocking":
         ops = [ln.split(" -> ")[0] for ln in real if ln.startswith("try ")]
@@ -188,6 +212,9 @@ def _kv(line: str) -> dict[str, str]:
 
 def oracle(case: dict, real: list[str]) -> str | None:
     kind = case.get("kind", "script")
+    if kind == "cancel":
+        from vlib import c08_cancel as X
+        return X.problem(case, real)
     for ln in real:
         if ln.startswith(("harness-exc", "unhandled")):
             return ln
@@ -204,6 +231,9 @@ def oracle(case: dict, real: list[str]) -> str | None:
     if kind == "bulk":
         from vlib import c08_bulk as K
         return K.problem(case, real)
+    if kind == "cancel":
+        from vlib import c08_cancel as X
+        return X.problem(case, real)
     o = {ln.split()[0]: ln for ln in real if ln.startswith("o.")}
     if "o.left-behind" in o:
         # generalised completion clause: once a write call has returned and no other write call of that side is in progress,
@@ -307,6 +337,9 @@ def nontrivial(case: dict, real: list[str]) -> str | None:
         size = "3x+" if big > 3 * 262144 else "2x+" if big > 2 * 262144 else "1x+" if big > 262144 - 400 else "below"
         return (f"bulk/{case.get('peer', 'raw')}/{case.get('ver', '1.3')}/{size}/{firsts}"
                 f"{'/bounded' if case.get('cap') else ''}{'/lent' if case.get('lend') else ''}")
+    if kind == "cancel":
+        from vlib import c08_cancel as X
+        return X.class_key(case, real)
     if kind == "duplex":
         bp = next((_kv(ln) for ln in real if ln.startswith("o.backpressure ")), None)
         both = bp is not None and int(bp["a2b"]) > 0 and int(bp["b2a"]) > 0
@@ -393,6 +426,10 @@ def shrink(case: dict):
     if "note" in case:                       # the comment of a corpus case does not describe its shrunk descendants
         case = {k: v for k, v in case.items() if k != "note"}
         yield case
+    if kind == "cancel":
+        from vlib import c08_cancel as X
+        yield from X.shrink_cancel(case)
+        return
     if kind == "script":
         for key in ("writer2", "reader", "writer", "reads", "writes", "hs"):
             lst = case.get(key) or []
@@ -519,6 +556,8 @@ def known_key(case: dict, real: list[str], why: str) -> str:
     kind = case.get("kind", "script")
     if "deadlock" in why:
         return f"kind={kind},deadlock"
+    if kind == "cancel" and "aclose()" in why:
+        return "kind=cancel,close"
     if "in the outgoing BIO" in why:
         return f"kind={kind},left-behind"
     if "accepted" in why:
@@ -827,8 +866,10 @@ def generate(rng, tier: str, boost: int):
     dup_every = 2 if tier == "quick" else 3        # 75 / 500 duplex sessions
     multi_every = 3                                # 50 / 500 multi-transport sessions over the real asyncio adapter
     bulk_every = 3                                 # 50 / 500 big-write / coarse-fragmentation sessions (vlib/c08_bulk.py)
+    from vlib import c08_cancel as X               # 150 / 1500 histories with cancelled lock waiters (vlib/c08_cancel.py)
     for i in range(n_sess):
         yield _gen_session(rng, rng.randrange(1 << 30))
+        yield X.gen_cancel(rng, rng.randrange(1 << 30))
         if i % dup_every == 0:
             yield _gen_duplex(rng, rng.randrange(1 << 30))
         if i % multi_every == 1:
